@@ -93,7 +93,7 @@ class Repo:
             self.cache[relpath] = strip_comments(open(p).read())
         return self.cache[relpath]
 
-    def function(self, relpath, sig_regex, which=None, within=None):
+    def function(self, relpath, sig_regex, which=None, within=None, ctor=False):
         """locate `sig_regex` (must match exactly once unless which given), return Piece of the brace body.
         `within`: (start_regex) restrict the search to the brace block that follows the first match of it
         (e.g. a class body)."""
@@ -122,10 +122,36 @@ class Repo:
                 raise ExtractionError("%s: %r is a declaration, not a definition" % (relpath, sig_regex))
             k += 1
         between = full[j:k].strip()
-        if between and not re.fullmatch(r'(const|noexcept|override|DISPENSO_\w+|\s)*', between):
+        init_stmts = ''
+        if between.startswith(':') and ctor:
+            # constructor member-initialiser list  ": a(e1), b(e2)"  ->  "a = e1; b = e2;" at the start of the body.
+            # the list may contain braces-free parenthesised expressions only; find the real body brace after it
+            pos = j + full[j:].index(':') + 1
+            inits = []
+            while True:
+                m = re.match(r'\s*(\w+)\s*(?=\()', full[pos:])
+                if not m:
+                    raise ExtractionError("%s: cannot parse member-initialiser list of %r" % (relpath, sig_regex))
+                a = pos + m.end()
+                b = match_balanced(full, a, '(', ')')
+                inits.append((m.group(1), full[a + 1:b - 1]))
+                pos = b
+                m2 = re.match(r'\s*,', full[pos:])
+                if m2:
+                    pos += m2.end()
+                    continue
+                break
+            k = full.index('{', pos)
+            if full[pos:k].strip():
+                raise ExtractionError("%s: unexpected text after member-initialiser list of %r" % (relpath, sig_regex))
+            init_stmts = ' '.join('%s = %s;' % (n, e) for n, e in inits)
+        elif between and not re.fullmatch(r'(const|noexcept|override|DISPENSO_\w+|\s)*', between):
             raise ExtractionError("%s: unexpected text %r between signature and body" % (relpath, between))
         end = match_balanced(full, k, '{', '}')
-        return Piece(relpath, full[k:end], k, end, full)
+        p = Piece(relpath, full[k:end], k, end, full)
+        if init_stmts:
+            p.text = '{ /* member-initialisers */ ' + init_stmts + p.text[1:]
+        return p
 
     def struct_fields(self, relpath, decl_regex):
         """return Piece with the brace body of `struct X {...}` located by decl_regex"""
@@ -238,6 +264,9 @@ def apply_rules(piece, typemap=None, subs=(), must_fire=(), drop=(), keep_this=F
         else:
             t, n = re.subn(pat, rep, t)
         want = sub[3] if len(sub) > 3 else None
+        if want == 'opt':
+            note(rule, n)
+            continue
         if n == 0 or (want is not None and n != want):
             raise ExtractionError("%s:%d: substitution %s %r fired %d times (expected %s)" % (
                 piece.relpath, piece.line_start, rule, pat, n, want if want is not None else '>=1'))
@@ -250,6 +279,8 @@ def apply_rules(piece, typemap=None, subs=(), must_fire=(), drop=(), keep_this=F
     # R16 namespace prefixes
     t, n = re.subn(r'(?<![\w:])(?:::)?(?:dispenso::)?detail::', '', t)
     note('R16', n)
+    t, n = re.subn(r'\bnullptr\b', '((void*)0)', t)
+    note('R2', n)
     # R2 casts
     for kw in ('static_cast', 'reinterpret_cast', 'const_cast'):
         def cast_fn(m, args, kw=kw):
